@@ -180,3 +180,21 @@ Example partially_monomorphize_args_ex :
   fst (partially_monomorphize_args ps [TNum KInt; CVal (TNum KInt) 5; CVal (TNum KNat) 2] None)
     = [Some (TNum KInt); Some (CVal (TNum KInt) 5); None].
 Proof. vm_compute. auto. Qed.
+
+(** 7. rows at call sites: the number of return wires that `_pack_returns` consumes for the
+       INSTANTIATED return type of a generic callee equals the number of output ports of the
+       HUGR function declared from the GENERIC signature (a type variable in return position is
+       one port whatever it is instantiated with: instantiate_partial marks instantiated
+       None / tuples with `preserve`, and type_to_row / _pack_returns honour the mark). *)
+Theorem call_row_matches_pack_returns : forall f a,
+  pack_returns_consumes (f_out (instantiate_partial f a)) = declared_outs (f_out f).
+Proof. exact call_row_matches. Qed.
+Print Assumptions call_row_matches_pack_returns.
+
+Example call_row_matches_pack_returns_ex :
+  let f := mk_fty [TVar 0 true true] [FNo] (TVar 0 true true) [PTy 0 true true] in
+  map (fun a => (f_out (instantiate f [a]), pack_returns_consumes (f_out (instantiate f [a]))))
+      [TNone false; TTup [] false; TTup [TNum KInt; TNum KInt] false]
+  = [(TNone true, 1); (TTup [] true, 1); (TTup [TNum KInt; TNum KInt] true, 1)]
+  /\ pack_returns_consumes (TNone false) = 0 /\ pack_returns_consumes (TTup [TNum KInt; TNum KInt] false) = 2.
+Proof. vm_compute. auto. Qed.
